@@ -6,7 +6,7 @@ the demonstration must fail with the change and pass without it; then tools/trym
 On confirmation the change is kept as /verif/seeded/<ID>/ (patch.diff, demo_test.go, notes.md, meta.json)."""
 import json, os, re, shutil, subprocess, sys, time
 
-WT = "/tmp/wt_eval"
+WT = os.environ.get("EVAL_WT", "/tmp/wt_eval")
 ENV = dict(os.environ, GOFLAGS="-mod=mod", GOPROXY="off")
 
 def sh(cmd, cwd=None, env=ENV, timeout=7200):
